@@ -6,8 +6,9 @@
    Collection.getX and the row order of the dataframe; equality of the NUMBERS across interfaces is not a theorem
    (the field cores are not modelled) -- it is the search oracle of harness/props/C07.py. *)
 From Coq Require Import ZArith List Bool String.
-From MV Require Import Model.InputTypes Gen.GenTables Gen.GenIfaces Model.DictIface Proofs.DictIfaceProofs
-  Proofs.IfacesProofs.
+From MV Require Import Lib.Rigid Lib.ListIdx Model.Level2Model Model.L2Arith Model.DictArith Gen.GenDictArith.
+From MV Require Import Model.InputTypes Gen.GenTables Gen.GenIfaces Model.DictIface Model.DictRows
+  Proofs.DictIfaceProofs Proofs.IfacesProofs Proofs.DictArithProofs Proofs.DictRowsProofs.
 Import ListNotations.
 Open Scope Z_scope.
 
@@ -135,6 +136,105 @@ Theorem C07_df_src_ids_length : forall (Lab : Type) (sumup : bool) (sl : Lab) (l
   List.length (df_src_ids sumup sl labels) = if sumup then 1%nat else List.length labels.
 Proof. exact df_src_ids_length. Qed.
 Print Assumptions C07_df_src_ids_length.
+
+(* ---- every keyword of every entry point (wave 3) ---- *)
+Theorem C07_wrappers_every_keyword : forall r, In r wrappers ->
+  (forall p d, In (p, d) (w_params r) -> In p (role_params r) \/ In (p, WParam p) (w_kw r)) /\
+  (forall k v, In (k, v) (w_kw r) -> In k (map fst level2_flags)).
+Proof. exact wrappers_every_keyword. Qed.
+Print Assumptions C07_wrappers_every_keyword.
+
+(* ---- the model of getBH_dict_level2 against the TRANSLATED statements of the function (Gen/GenDictArith.v) ---- *)
+(* all statements of getBH_dict_level2, in source order, are the reviewed ones *)
+Theorem C07_dict_statements_reviewed : dict_arith = expected_dict_arith.
+Proof. exact dict_arith_reviewed. Qed.
+Print Assumptions C07_dict_statements_reviewed.
+
+(* the literal base rank table and the default of `.get(key, 1)` (both occurrences) are the model's arguments *)
+Theorem C07_rank_lookup_translated :
+  match get F "assign" "field_func_kwargs_ndim" 0%nat dict_arith with
+  | PDict l => pdict_table l | _ => None end = Some dict_base_ndim /\
+  get_default (get F "assign" "expected_dim" 0%nat dict_arith) = Some dict_default_ndim /\
+  get_default (get F "assign" "expected_dim" 1%nat dict_arith) = Some dict_default_ndim.
+Proof. exact (conj base_table_translated default_rank_translated). Qed.
+Print Assumptions C07_rank_lookup_translated.
+
+(* one iteration of the first loop: the model's phase1 step is decided by the two translated tests
+   `val.ndim == expected_dim or ragged_seq[key]` and `len(val) == 1`, evaluated on the loop variables *)
+Theorem C07_phase1_step_translated : forall (ed : string -> Z) k v rest rag val n,
+  secure v = SOk rag val ->
+  (if (v_ndim val =? ed k) || rag then v_len val else Some 0) = Some n ->
+  forall env, e_ndim env = v_ndim val -> e_expected env = ed k -> e_ragged env = rag -> e_len env = n ->
+  exists counted is1,
+    dB env (get F "if" "" 1%nat dict_arith) = Some counted /\ dB env (get F "if" "" 2%nat dict_arith) = Some is1 /\
+    phase1 ed ((k, v) :: rest) =
+      match phase1 ed rest with
+      | P1Ok items vls =>
+          P1Ok ((k, (rag, if counted && is1 then v_squeeze val else val)) :: items)
+               ((if counted && negb is1 then [(k, n)] else []) ++ vls)
+      | e => e
+      end.
+Proof. exact phase1_step_translated. Qed.
+Print Assumptions C07_phase1_step_translated.
+
+(* `if len(set(vec_lengths.values())) > 1: raise` is the model's all_same test; `max(..., default=1)` its vec_len_of *)
+Theorem C07_lengths_translated :
+  (forall env (vls : list Z), e_distinct env = ndistinct vls ->
+     dB env (get F "if" "" 3%nat dict_arith) = Some (negb (DictIface.all_same vls))) /\
+  max_default (get F "assign" "vec_len" 0%nat dict_arith) = Some (vec_len_of []) /\
+  (forall x r, In (vec_len_of (x :: r)) (x :: r) /\ forall y, In y (x :: r) -> y <= vec_len_of (x :: r)).
+Proof. exact (conj lengths_test_model (conj vec_len_translated vec_len_of_is_max)). Qed.
+Print Assumptions C07_lengths_translated.
+
+(* the tiling loop: the translated condition and repetitions (vec_len, *[1] * (expected_dim - 1)) are tile_item's *)
+Theorem C07_tile_item_translated : forall (ed : string -> Z) vec_len k rag s env,
+  e_ndim env = ndim s -> e_expected env = ed k -> e_ragged env = rag -> e_vec_len env = vec_len ->
+  exists c reps, dB env (get F "if" "" 4%nat dict_arith) = Some c /\
+    match tile_reps (get F "assign" "kwargs[key]" 1%nat dict_arith) with
+    | Some items => dTuple env items | None => None end = Some reps /\
+    tile_item ed vec_len (k, (rag, VArr s)) = if c then (k, VArr (np_tile_shape s reps)) else (k, VArr s).
+Proof. exact tile_item_translated. Qed.
+Print Assumptions C07_tile_item_translated.
+
+(* ---- functional interface vs object interface: the same rows reach getBH_level1 ----
+   PARTIAL: one source class (one group), static poses, plain position observers (no sensor rotation / pixels / paths);
+   Level2Model.group_field is builder l2a's model of get_src_dict + getBH_level1 for one group. *)
+Section AnyRigidAlgebra.
+Context {O : RigidOps}.
+Variable P : Type.
+Variable Fld : nat -> P -> V -> V.
+
+Theorem C07_functional_rows_partial :
+  (* the row list of group_field *)
+  (forall k gr M n_pix n_pp po,
+     group_field P Fld k gr M n_pix n_pp po
+     = map (chunks n_pix M) (chunks (M * n_pix) (List.length gr)
+                                    (map (row_field P Fld k) (l2_rows P gr n_pix n_pp po)))) /\
+  (* n static sources, one observer given once *)
+  (forall (gr : list (@leaf O P)) (o : V),
+     dict_rows P (List.length gr) (Many (flat_map l_pos gr)) (Many (flat_map l_ori gr)) (One o) (Many (map l_prop gr))
+     = l2_rows P gr 1 1 [o]) /\
+  (* one static source given once, n observers *)
+  (forall (p : V) (q : G) (k : nat) (pr : P) (po : list V),
+     dict_rows P (List.length po) (One p) (One q) (Many po) (One pr)
+     = l2_rows P [mkLeaf [p] [q] k pr] (List.length po) (List.length po) po).
+Proof.
+  exact (conj (group_field_rows P Fld) (conj (rows_sources_one_observer P) (rows_one_source_observers P))).
+Qed.
+
+Theorem C07_functional_field_partial :
+  (forall k (gr : list (@leaf O P)) (o : V), Forall (static_leaf P) gr ->
+     group_field P Fld k gr 1 1 1 [o]
+     = map (fun v => [[v]])
+           (dict_field P Fld k (List.length gr) (Many (flat_map l_pos gr)) (Many (flat_map l_ori gr)) (One o)
+                       (Many (map l_prop gr)))) /\
+  (forall (p : V) (q : G) (k : nat) (pr : P) (po : list V),
+     group_field P Fld k [mkLeaf [p] [q] k pr] 1 (List.length po) (List.length po) po
+     = [[dict_field P Fld k (List.length po) (One p) (One q) (Many po) (One pr)]]).
+Proof. exact (conj (field_sources_one_observer P Fld) (field_one_source_observers P Fld)). Qed.
+End AnyRigidAlgebra.
+Print Assumptions C07_functional_rows_partial.
+Print Assumptions C07_functional_field_partial.
 
 (* non-vacuity: a registered class and a keyword list that satisfy every hypothesis of the first
    theorem (Cuboid, n = 5: single polarization, per-instance dimension and observers), with the computed result *)
